@@ -18,7 +18,7 @@ import os, re
 
 HARNESS = ["h_C06.cpp"]
 VARIANT = "asan"
-TIMEOUT = 1500
+TIMEOUT = 900
 
 RULE = ("two real threads on the real ThreadLink under a forced schedule. Rings ThreadLink(MM,n) with MM in "
         "{16,17,18,20,24,32}, n in 2..8 (N = MM*n <= 160, N mod 4 in {0,1,2,3} so messages wrap at every offset). "
@@ -244,7 +244,7 @@ def spec_check(case, impl):
     f = case.split(" ")
     if f[0] == "soak":
         return None if impl.startswith("soak ok") else "soak: free-running FIFO self-check failed: " + impl[:200]
-    if impl.startswith("CRASH") or impl == "NOOUT":
+    if impl.startswith("CRASH") or impl == "NOOUT" or impl.startswith("HANG"):
         return "crash: " + impl[:300]
     d = parse_out(impl)
     if d is None:
